@@ -33,7 +33,7 @@ func init() {
 		ID:    "C03",
 		Title: "Token supply changes only by the documented, exactly quantified events",
 		Funcs: fcNP("x/mint/types.Minter.CalculateBlockProvision", "x/mint/keeper.Keeper.MintCoins", "x/mint/keeper.Keeper.SendInflationaryRewards",
-			"x/mint.MintBlockProvision", "x/mint.SetPreviousBlockTime", "x/mint.BeginBlocker", "x/mint/keeper.msgServer.Init", "x/oracle/keeper.Keeper.transfer",
+			"x/mint.MintBlockProvision", "x/mint.SetPreviousBlockTime", "x/mint.BeginBlocker", "x/mint/keeper.msgServer.Init", "x/mint/keeper.Keeper.InitGenesis", "x/oracle/keeper.Keeper.transfer",
 			"x/oracle/keeper.msgServer.Tip", "x/bridge/keeper.Keeper.ClaimDeposit", "x/bridge/keeper.Keeper.WithdrawTokens",
 			"x/dispute/keeper.Keeper.ExecuteVote", "x/dispute/keeper.msgServer.WithdrawFeeRefund"),
 		Sweeps: []string{"supply_writers"},
@@ -109,7 +109,7 @@ func init() {
 	reg(&PropDef{
 		ID:    "C11",
 		Title: "Slashing takes exactly the category's share of the disputed report's stake",
-		Funcs: fcNP("x/dispute/keeper.Keeper.GetDisputeFee", "x/dispute/keeper.GetSlashPercentageAndJailDuration", "x/reporter/keeper.Keeper.deductUnbondingDelegation"),
+		Funcs: fcNP("x/dispute/keeper.Keeper.GetDisputeFee", "x/dispute/keeper.GetSlashPercentageAndJailDuration", "x/reporter/keeper.Keeper.deductUnbondingDelegation", "x/reporter/keeper.Keeper.deductFromdelegation", "x/reporter/keeper.Keeper.undelegate"),
 		Assumptions: []string{
 			"assumed contract on the staking keeper (x/reporter/types.StakingKeeper): unbonding entries returned by GetUnbondingDelegation have non-negative balances; Set/RemoveUnbondingDelegation do not change bank balances, the validator set or total bonded tokens",
 		},
@@ -136,7 +136,7 @@ func init() {
 	reg(&PropDef{
 		ID:    "C10",
 		Title: "Reporting power equals the bonded stake of active selectors, counted once",
-		Funcs: fcNP("x/reporter/keeper.Keeper.HasMin", "x/reporter/keeper.Keeper.ReporterStake"),
+		Funcs: fcNP("x/reporter/keeper.Keeper.HasMin", "x/reporter/keeper.Keeper.ReporterStake", "x/reporter/keeper.msgServer.SwitchReporter", "x/reporter/keeper.msgServer.CreateReporter"),
 		Assumptions: []string{
 			"staking state as ghost: delegation(a,j)/ndelegations(a) is the sequence IterateDelegatorDelegations visits, staking.validators the validator store; Validator.TokensFromShares = shares*Tokens/DelegatorShares with banker's rounding (cosmos-sdk v0.50.9)",
 			"the minimum passed to HasMin is positive",
@@ -150,7 +150,7 @@ func init() {
 	reg(&PropDef{
 		ID:    "C09",
 		Title: "Each reward is split exactly, non-negatively and in proportion to backing stake",
-		Funcs: fcNP("x/oracle/keeper.CalculateRewardAmount", "x/oracle/keeper.Keeper.AllocateRewards", "x/oracle/keeper.Keeper.AllocateTip", "x/reporter/keeper.Keeper.DivvyingTips"),
+		Funcs: fcNP("x/oracle/keeper.CalculateRewardAmount", "x/oracle/keeper.Keeper.AllocateRewards", "x/oracle/keeper.Keeper.AllocateTip", "x/reporter/keeper.Keeper.DivvyingTips", "x/reporter/keeper.msgServer.CreateReporter"),
 		Assumptions: []string{
 			"LegacyDec Mul/Quo as banker's-rounded 18-decimal arithmetic (cosmossdk.io/math v1.3.0), given relationally (is_round_he / is_tdiv)",
 			"stored stake records (reporter.Report) have a positive Total and non-nil token origins",
@@ -158,7 +158,7 @@ func init() {
 		NotDecided: []string{
 			"non-negativity of every credit and of the last reporter's remainder, and the n*10^-18 bound between the sum of selector credits and the reward: nonlinear bounds over all reporters are not carried",
 			"proportionality across reporters (the map-building passes of AllocateRewards have no functional invariants yet); the call-site preconditions of CalculateRewardAmount and AllocateTip inside AllocateRewards are therefore not claimed",
-			"time-based reward list and amount (SetAggregatedReport); commission bound at reporter creation",
+			"time-based reward list and amount (SetAggregatedReport)",
 		},
 	})
 	reg(&PropDef{
@@ -262,15 +262,18 @@ func init() {
 	reg(&PropDef{
 		ID:    "C05",
 		Title: "The staked-token ledger is always backed by the staking pools",
-		Funcs: fcNP("x/reporter/keeper.Keeper.FeefromReporterStake", "x/reporter/keeper.Keeper.deductUnbondingDelegation"),
+		Funcs: fcNP("x/reporter/keeper.Keeper.FeefromReporterStake", "x/reporter/keeper.Keeper.deductUnbondingDelegation", "x/reporter/keeper.Keeper.deductFromdelegation", "x/reporter/keeper.Keeper.undelegate",
+			"x/reporter/keeper.Keeper.ReturnSlashedTokens", "x/reporter/keeper.Keeper.FeeRefund", "x/reporter/keeper.Keeper.AddAmountToStake"),
 		Assumptions: []string{
+			"assumed contract on StakingKeeper.Delegate: with subtractAccount=false it moves coins only between the two staking pools; GetBondedValidators (raw store iterator) is a trusted read",
 			"assumed contracts on the staking keeper (x/reporter/types.StakingKeeper): Unbond returns the non-negative token amount it removed from the validator and moves no coins; unbonding entries have non-negative balances; Set/RemoveUnbondingDelegation change no bank balance",
 			"the ledger side is the staking module's: 'the amount leaves the ledger' means the sum of Unbond results (retsum(Unbond, 0)), resp. the reduction of unbonding-entry balances written back",
 			"every stored validator has positive delegator shares (staking invariant)",
 		},
 		NotDecided: []string{
 			"per-backer records of a second fee payment for the same dispute (the earlier records are appended: needs a sum-over-concatenation lemma)",
-			"EscrowReporterStake / undelegate / deductFromdelegation (apportioning over backers, redelegation chase), ReturnSlashedTokens / FeeRefund / AddAmountToStake (Delegate with subtractAccount=false paired with the dispute module's transfer to the bonded pool; suspected defect: coins always go to the bonded pool even when the validator is not bonded), WithdrawTip: not under contract",
+			"EscrowReporterStake / undelegate (apportioning over backers, redelegation chase) and WithdrawTip are not under contract; for ReturnSlashedTokens / FeeRefund / AddAmountToStake the decided part is: every Delegate takes the bonded pool as token source with subtractAccount=false (matching the dispute module's transfer into the bonded pool), without a winning purse every backer gets back exactly what was taken, the record is consumed; the pro-rata amounts with a purse or a partial fee refund (at most one unit lost per entry) are not decided",
+			"FeeRefund and AddAmountToStake index the list of bonded validators at 0 without a length check (a chain without bonded validators): panic obligation not claimed",
 			"the pool >= ledger invariant itself is the staking module's and is not modelled",
 		},
 	})
